@@ -35,6 +35,10 @@ EXC = {
     'RuntimeError': RuntimeError, 'ZzCustomBoom': ZzCustomBoom, 'ZzLookup': ZzLookup, 'OSError': OSError,
     'ZeroDivisionError': ZeroDivisionError, 'AttributeError': AttributeError, 'StopIteration': StopIteration,
     'UnicodeDecodeError': None, 'ValidationError': None, 'DeserializationError': None,  # built specially
+    'TimeoutError': TimeoutError, 'NotImplementedError': NotImplementedError, 'RecursionError': RecursionError,
+    'ConnectionResetError': ConnectionResetError, 'FileNotFoundError': FileNotFoundError, 'IndexError': IndexError,
+    'StopAsyncIteration': StopAsyncIteration, 'MemoryError': MemoryError, 'ArithmeticError': ArithmeticError, 'LookupError': LookupError,
+    'PermissionError': PermissionError, 'BufferError': BufferError, 'EOFError': EOFError, 'ImportError': ImportError, 'NameError': NameError,
 }
 
 
@@ -206,7 +210,11 @@ def build_function(mspec: Dict[str, Any]) -> Any:
     ctx_names = [p['name'] for p in mspec['params'] if p.get('ctx')]
     ctx_expr = ctx_names[0] if ctx_names else 'NOCTX'
     bound = '{' + ', '.join(f'{n!r}: {n}' for n in names) + '}'
-    if mspec['flavour'] == 'coro':
+    if mspec['flavour'] == 'wcoro':
+        # an async method behind an ordinary (non-async) decorator: calling it returns a coroutine, but it is not a coroutine function
+        body = (f"async def _inner_{py}({src}):\n    return await _RT.acall({key!r}, {bound}, {ctx_expr})\n\n\n"
+                f"def {py}(*args, **kwargs):\n    return _inner_{py}(*args, **kwargs)\n\n\n{py}.__wrapped__ = _inner_{py}\n")
+    elif mspec['flavour'] == 'coro':
         body = f"async def {py}({src}):\n    return await _RT.acall({key!r}, {bound}, {ctx_expr})\n"
     else:
         body = f"def {py}({src}):\n    return _RT.call({key!r}, {bound}, {ctx_expr})\n"
@@ -232,9 +240,9 @@ def build_view(mspec: Dict[str, Any], extra_members: bool = False) -> Any:
     ctor_extra = "        raise RuntimeError('view constructor failed')\n" if mspec.get('ctor_raises') else ''
     cls_src = (
         f"class View_{py}(ViewMixin):\n"
-        f"    def __init__(self, context=NOCTX):\n"
+        f"    def __init__(self, view_context=NOCTX):\n"
         f"        super().__init__()\n"
-        f"        self._ctx = context\n"
+        f"        self._ctx = view_context\n"
         f"{ctor_extra}"
         f"{meth}"
     )
